@@ -160,6 +160,7 @@ type world struct {
 	inputMFs  []*promreg.MetricFactory
 	outcome   []string
 	consumers int
+	stopTook  time.Duration
 	reloaded  bool // SIGHUP has been raised
 	envsAtHUP int
 }
@@ -513,7 +514,9 @@ func drive(w *world) explore.Verdict {
 			}
 		}
 		vsched.Note("generation %d: graceful stop", g)
+		t0 := vsched.Elapsed()
 		orc.Shutdown()
+		w.stopTook = vsched.Elapsed() - t0
 		vsched.Idle()
 		w.checkAtStop(g, last)
 	}
@@ -730,6 +733,9 @@ func (w *world) checkAtStop(g int, last bool) {
 			nDisk++
 		default:
 			nLost++
+			if w.p.prop == "C18" {
+				w.violate("record-only-in-memory", "when the shutdown of generation %d returns, record %s is neither acknowledged nor in a chunk file although a queue directory is available", g, l.stamp)
+			}
 			if w.p.prop == "C01" || w.p.prop == "" {
 				w.violate("record-lost", "after the graceful stop of generation %d record %s (connection %d, app %s) is neither acknowledged by the upstream nor in a chunk file of the on-disk queue", g, l.stamp, l.conn, l.app)
 			}
@@ -740,6 +746,14 @@ func (w *world) checkAtStop(g int, last bool) {
 			if l.accepted && !l.drop && !acked[l.stamp] {
 				w.violate("not-delivered-at-end", "record %s was never acknowledged although the last generation ran against a healthy upstream to the drain horizon", l.stamp)
 			}
+		}
+	}
+	if w.p.prop == "C18" {
+		// the whole shutdown sequence below the listener (sinks closed, Orchestrator.Shutdown: pipeline channels closed, workers
+		// flush, buffers destroyed, clients stopped) returns within the longest documented chain of timeouts
+		bound := defs.BufferShutDownTimeout + 3*defs.IntermediateChannelTimeout
+		if w.stopTook > bound {
+			w.violate("stop-too-slow", "the shutdown of generation %d took %v of virtual time, bound %v", g, w.stopTook, bound)
 		}
 	}
 	if w.p.prop == "C05" {
